@@ -348,6 +348,18 @@ class BucketModel:
                     if isinstance(tgt, ast.Name) and tgt.id not in self.shared:
                         self.ldeps.setdefault(tgt.id, set()).update(self._deps(val))
         self.stamp = next((v for v in sorted(self.shared) if any(self.writes(n, v) and self._is_clock(self._value_for(n, v)) for n in own_nodes(fn))), None)
+        if self.stamp is None:
+            # never written here: the variable the clock is measured against (`<clock> - X`) is still the stamp
+            for n in own_nodes(fn):
+                if isinstance(n, ast.BinOp) and isinstance(n.op, ast.Sub) and self._is_clock(n.left) and isinstance(n.right, (ast.Name, ast.Attribute)):
+                    self.stamp = norm(n.right)
+                    self.shared.add(self.stamp)
+                    for _ in range(3):
+                        for m2 in own_nodes(fn):
+                            for tgt, val in self._assignments(m2):
+                                if isinstance(tgt, ast.Name) and tgt.id not in self.shared:
+                                    self.ldeps.setdefault(tgt.id, set()).update(self._deps(val))
+                    break
         self.level = None
         if self.stamp is not None:
             self.level = next((v for v in sorted(self.shared) if v != self.stamp and any(self.writes(n, v) and self.stamp in self._deps(self._value_for(n, v)) for n in own_nodes(fn))), None)
